@@ -17,7 +17,7 @@ Print mism_stream.
 Definition conv_code (r : res (bytes * bytes + reason)) : Z :=
   match r with Panic => 98 | Val (inl _) => 0 | Val (inr e) => reason_code e end.
 Definition mism_convert := Eval vm_compute in
-  failing (fun c : bytes * decoded * Z * bool => let '(f, dec, code, same) := c in
+  failing (fun c : bytes * decoded * Z * bool * bool => let '(f, dec, code, same, handler_ok) := c in
            conv_code (convert (daemon_msg_ids ++ test_ids) dec f) =? code) cases_convert.
 Print mism_convert.
 
